@@ -315,3 +315,6 @@ func RunReplays(t *testing.T, hs map[string]func()) {
 		idx++
 	}
 }
+
+func BlobPut(v interface{}) []byte              { panic("vsym.BlobPut is symbolic-only") }
+func BlobGet(data []byte, dst interface{}) bool { panic("vsym.BlobGet is symbolic-only") }
